@@ -22,7 +22,7 @@ PROP = "C03"
 CLASSES = ["ConvexPolyhedron", "Polyhedron", "ConvexSpheropolyhedron", "Polygon",
            "ConvexPolygon", "ConvexSpheropolygon"]
 TIERS = {
-    "quick": {"runs": 2400, "chunk": 6, "shrink_cap_s": 60, "max_minimised": 10},
+    "quick": {"runs": 3600, "chunk": 6, "shrink_cap_s": 60, "max_minimised": 10},
     "thorough": {"budget_s": 1200, "chunk": 6, "shrink_cap_s": 180, "max_minimised": 20},
     "run_cap_s": 180,
 }
